@@ -413,6 +413,8 @@ func runC19(r *hx.Result, cfg hx.Config) {
 	c19Round3(r, cfg, rng, drv)
 	// refused / malformed writes on absent keys: key space vs retrievable objects (Props/C19ks.v, seeds_r4.go)
 	c19Round4(r, cfg, rng)
+	// deadlines of either sign + sweep, CURSOR x LIMIT x COUNT, inverted-BOUNDS probe (Props/C19ex.v, C19cur.v, C19inv.v; seeds_r5.go)
+	c19Round5(r, cfg, rng, drv)
 	// hook / channel registry size against the life-cycle model (Props/C19hk.v)
 	hooklife.RunC19(r, cfg)
 }
